@@ -392,26 +392,39 @@ theorem C18.dft_adjoint_exposed_iff (d r : Bool) :
     dftAdjointStatus d r = none ↔ (d = true ∧ r = true) := by
   cases d <;> cases r <;> simp [dftAdjointStatus]
 
-/-- **Default range (open finding F18g).**  The constructor of the plain DFT operators with
-`range=None` fails exactly when the range shape has a one-point axis (zero extent of the default
-`nodes_on_bdry` grid, zero cell volume); shapes with all axes `≥ 2` and every given range are
-accepted.  The `if` is by construction; the content is the characterisation by axis lengths. -/
-theorem C18.dft_default_range_partial (fshape : List Nat) (given : Bool)
-    (h : given = true ∨ ∀ n ∈ fshape, 2 ≤ n) : dftDefaultRangeStatus fshape given = none := by
-  unfold dftDefaultRangeStatus
-  rcases h with h | h
-  · simp [h]
-  · have : fshape.any (· == 1) = false := by
-      rw [List.any_eq_false]; intro n hn; have := h n hn; simp; omega
-    simp [this]
+/-- **Default range (after /repo fix 02139e2).**  The constructor of the plain DFT operators builds
+its default range (`range=None`) for EVERY range shape — one-point axes included — and accepts
+every given range: the extent `max(n - 1, 1)` is positive on every axis, so the cell volume never
+vanishes.  (`dftDefaultRangeExtent` is compared with `op.range` of the real operators in the
+stream `dftctor/*`.) -/
+theorem C18.dft_default_range_ok (fshape : List Nat) (given : Bool) :
+    dftDefaultRangeStatus fshape given = none := by
+  unfold dftDefaultRangeStatus dftDefaultRangeStatusOf
+  have : fshape.any (fun n => dftDefaultRangeExtent n == 0) = false := by
+    rw [List.any_eq_false]; intro n _; unfold dftDefaultRangeExtent; simp
+  simp [this]
 
-/-- Counterexample on the model for F18g: shape `(4, 1)`, no range given. -/
-theorem C18.dft_default_range_one_point_fails :
-    dftDefaultRangeStatus [4, 1] false = some "err:value" ∧
-    dftDefaultRangeStatus [4, 1] true = none := by decide
+/-- Sensitivity, about the OLD variant `dftDefaultRangeStatusOld` (extent `shape - 1`, the code
+before 02139e2, former finding F18g): it fails exactly when no range is given and the range shape
+has an axis with at most one point. -/
+theorem C18.dft_default_range_old_one_point_fails (fshape : List Nat) (given : Bool) :
+    dftDefaultRangeStatusOld fshape given = some "err:value" ↔
+      (given = false ∧ ∃ n ∈ fshape, n ≤ 1) := by
+  unfold dftDefaultRangeStatusOld dftDefaultRangeStatusOf dftDefaultRangeExtentOld
+  cases given
+  · by_cases h : ∃ n ∈ fshape, n ≤ 1
+    · have : fshape.any (fun n => n - 1 == 0) = true := by
+        rw [List.any_eq_true]; obtain ⟨n, hn, h1⟩ := h; exact ⟨n, hn, by simp; omega⟩
+      simp [this, h]
+    · have : fshape.any (fun n => n - 1 == 0) = false := by
+        rw [List.any_eq_false]; intro n hn h1; exact h ⟨n, hn, by simp at h1; omega⟩
+      simp [this, h]
+  · simp
 
-example : dftDefaultRangeStatus [4, 3, 2] false = none :=
-  C18.dft_default_range_partial _ _ (Or.inr (by decide))
+example : dftDefaultRangeStatus [4, 1, 2] false = none ∧
+    dftDefaultRangeStatusOld [4, 1, 2] false = some "err:value" ∧
+    dftDefaultRangeStatusOld [4, 3, 2] false = none :=
+  ⟨C18.dft_default_range_ok _ _, by decide, by decide⟩
 
 /-! ## Constructor and planner of the plain DFT operators -/
 
@@ -1239,6 +1252,28 @@ theorem C18.raveled_slices_roundtrip {K : Type} (aShape : List Nat)
 example : ravelSlices [2, 3] [] = [("a", 0, 6)] ∧
     unravel ((ravelSlices [2, 3] []).map (·.2)) (ravel [[1, 2, 3, 4, 5, 6]]) = [[1, 2, 3, 4, 5, 6]] :=
   ⟨by decide, C18.raveled_slices_roundtrip [2, 3] [] [[1, 2, 3, 4, 5, 6]] (by decide)⟩
+
+/-- **`scales()` has the layout of `W(x)`** (`scalesOf`, the executed model of
+`WaveletTransformBase.scales`, compared entry by entry with `W.scales()` and `W.inverse.scales()`):
+for every approximation shape and every list of detail dictionaries (any number of levels,
+dimensions, `axes` subsets), cutting the scales array at ODL's precomputed slices
+(`precompute_raveled_slices`) returns exactly the constant blocks `0` (approximation) and `i`
+(every detail block of level `i`, sorted keys), and its length is the total coefficient count. -/
+theorem C18.scales_layout (aShape : List Nat) (details : List (List (String × List Nat))) :
+    unravel ((ravelSlices aShape details).map (·.2)) (scalesOf aShape details)
+      = scaleBlocks aShape details ∧
+    (scalesOf aShape details).length = ((blockOrder aShape details).map fun b => prod b.2).sum := by
+  have hsz : (scaleBlocks aShape details).map List.length
+      = (blockOrder aShape details).map fun b => prod b.2 := by
+    unfold scaleBlocks blockOrder
+    simp only [List.map_cons, List.length_replicate]
+    congr 1
+    exact scaleBlocks_lengths_aux details 0
+  refine ⟨C18.raveled_slices_roundtrip aShape details _ hsz, ?_⟩
+  unfold scalesOf ravel
+  rw [List.length_flatten, hsz]
+
+example : scalesOf [2] [[("d", [2])], [("d", [3])]] = [0, 0, 1, 1, 2, 2, 2] := by decide +kernel
 
 /-- **Crop rule.**  Whenever PyWavelets' reconstruction has an admissible length (`n`, or
 `n+1` for odd `n`), the crop of `WaveletTransformInverse._call` keeps exactly `n` entries and
